@@ -154,7 +154,7 @@ def stage2_of(stage1, impl1):
 
 def run(ctx):
     g = G(ctx.seed)
-    stage1 = gen(g, 150 if ctx.tier == 'quick' else 3000)
+    stage1 = gen(g, 700 if ctx.tier == 'quick' else 3000)
     impl1, model1 = run_apps(ctx, stage1)
     stage2 = stage2_of(stage1, impl1)
     impl2, model2 = run_apps(ctx, stage2)
